@@ -643,7 +643,9 @@ class HedTag:
         if self.short_tag.casefold() == other.short_tag.casefold():
             return True
 
-        if self.org_tag.casefold() == other.org_tag.casefold():
+        # The text as written only decides for tags the schema could not identify (an identified tag whose
+        # placeholder was replaced still reads 'Tag/#' there).
+        if not (self._schema_entry and other._schema_entry) and self.org_tag.casefold() == other.org_tag.casefold():
             return True
         return False
 
